@@ -163,6 +163,8 @@ class FaultOracle(Oracle):
         self.mask_changed_while_counting: dict[tuple[int, int], bool] = {}
         self.prev_present: list[bool] | None = None
         self.expected: dict | None = None
+        self.diverged = False
+        self.diverged_counted = False
 
     def on_built(self, run: SingleRun) -> None:
         for gi, refs in enumerate(run.blocks):
@@ -174,6 +176,17 @@ class FaultOracle(Oracle):
         seam = self.seam
         seam.queue = []
         seam.fired = []
+        self.blocks_plan = []
+        self.refresh_groups = []
+        # a trajectory that leaves the representable range (overflow with finite gradients) carries no verdict
+        for p in run.params:
+            pv = p.detach()
+            if pv.numel() and bool(torch.isfinite(pv).all()) and float(pv.abs().max()) > 1e8:
+                self.diverged = True
+        if self.diverged:
+            run.probes["diverged_run"] += 1 if not self.diverged_counted else 0
+            self.diverged_counted = True
+            return
         present = [g is not None for g in ev["g"]]
         if self.prev_present is not None and present != self.prev_present:
             for gi in self.mask_changed_since_failure:
@@ -257,6 +270,9 @@ class FaultOracle(Oracle):
         return exp
 
     def post_step(self, run: SingleRun, ei: int, ev: dict, exc: BaseException | None) -> None:
+        if self.diverged:
+            run.log.take()
+            return
         exp = self._expectation(run)
         seam = self.seam
         records = run.log.take()
@@ -354,9 +370,9 @@ class FaultOracle(Oracle):
         for gi in exp["refresh_groups"]:
             if failed and self.mask_changed_since_failure.get(gi) is None:
                 self.mask_changed_since_failure[gi] = False
-        # probe: a refresh at which some block carries a non-zero count and the mask changed since that failure
-        for (gi, li), c in self.counters.items():
-            if c > 0 and self.mask_changed_since_failure.get(gi) and (gi, li) in set(exp["participants"]):
+        # probe: a refresh in which a block takes part whose count was non-zero while the presence mask changed
+        for key in exp["participants"]:
+            if self.mask_changed_while_counting.get(key) and self.counters.get(key, 0) > 0:
                 run.probes["refresh_with_mask_change_since_last_failure"] += 1
 
     def _counter_view(self) -> dict:
@@ -379,6 +395,12 @@ def generate(rng: random.Random, tier: str) -> dict:
     config["precondition_frequency"] = freq
     config["start_preconditioning_step"] = rng.choice([-1, freq, freq + 1])
     config["epsilon"] = rng.choice([1e-6, 1e-4, 1e-2, 1e-1])
+    if config["grafting"] is None or config["grafting"]["type"] == "sgd":
+        config["grafting"] = gen.gen_grafting(rng, allow_none=False)
+        if config["grafting"]["type"] == "sgd":
+            config["grafting"] = {"type": "adagrad", "epsilon": 1e-8}
+    config["lr"] = gen.f32r(rng, 1e-3, 0.1)
+    config["weight_decay"] = rng.choice([0.0, 0.0, 1e-3, 1e-2])
     config["max_preconditioner_dim"] = rng.choice([2, 3, 4, 5, 8, 1024])
     dtype = rng.choice(["float32", "float32", "float64"])
     config["preconditioner_dtype"] = rng.choice(["float32", "float32", "float64"])
@@ -386,7 +408,7 @@ def generate(rng: random.Random, tier: str) -> dict:
     params = gen.gen_params(rng, n_params, dtype, max_numel=120, min_order=1)
     groups = gen.gen_groups(rng, n_params, config, max_groups=2)
     for g in groups:
-        for k in ("precondition_frequency", "start_preconditioning_step", "betas", "epsilon", "max_preconditioner_dim", "use_merge_dims"):
+        for k in ("precondition_frequency", "start_preconditioning_step", "betas", "epsilon", "max_preconditioner_dim", "use_merge_dims", "grafting", "lr", "weight_decay"):
             g["overrides"].pop(k, None)
     style = gen.gen_presence_style(rng, n_params)
     style["style"] = rng.choice(["all", "adversarial", "flip", "random", "sticky"])
